@@ -202,14 +202,15 @@ impl R {
             R::Str(p, q) => format!("{}{}{}", q, p, q),
             R::Bool(sp) => sp.clone(),
             R::Ref(n) => n.clone(),
-            R::Call(n, a) => format!("{}({})", n, a.iter().map(|x| x.render_explicit()).collect::<Vec<_>>().join(", ")),
-            R::List(a) => format!("[{}]", a.iter().map(|x| x.render_explicit()).collect::<Vec<_>>().join(", ")),
+            // separators are set off by blanks: a word operator must not touch `,` or `;`
+            R::Call(n, a) => format!("{}({})", n, a.iter().map(|x| x.render_explicit()).collect::<Vec<_>>().join(" , ")),
+            R::List(a) => format!("[{}]", a.iter().map(|x| x.render_explicit()).collect::<Vec<_>>().join(" , ")),
             R::Map(m) => format!(
                 "{{{}}}",
                 m.iter()
                     .map(|(k, v)| format!("{} : {}", operand_if_cond(k), v.render_explicit()))
                     .collect::<Vec<_>>()
-                    .join(", ")
+                    .join(" , ")
             ),
             R::Prefix(op, x) => format!("{} {}", op, operand(x)),
             R::Postfix(x, op) => format!("{} {}", operand(x), op),
@@ -218,7 +219,7 @@ impl R {
             }
             R::NotInfix(op, l, r) => format!("{} not {} {}", operand(l), op, operand(r)),
             R::Cond(c, a, b) => format!("{} ? {} : {}", operand(c), operand(a), operand(b)),
-            R::Stmts(v) => v.iter().map(|x| x.render_explicit()).collect::<Vec<_>>().join("; "),
+            R::Stmts(v) => v.iter().map(|x| x.render_explicit()).collect::<Vec<_>>().join(" ; "),
         }
     }
 
@@ -323,6 +324,8 @@ pub struct Loggers {
     pub prefix: BTreeMap<String, (u32, V)>,
     pub infix: BTreeMap<String, (u32, V)>,
     pub postfix: BTreeMap<String, (u32, V)>,
+    /// infix operators registered as SETTER: `x op e` binds x to the handler's result
+    pub setters: BTreeMap<String, (u32, V)>,
 }
 
 #[derive(Clone, Debug, Default)]
@@ -416,6 +419,18 @@ impl Model {
                     return self.logger(id, vec![v], &ret);
                 }
                 apply_postfix(op, v)
+            }
+            R::Infix(op, l, rr) if self.loggers.setters.contains_key(op) => {
+                let (id, ret) = self.loggers.setters[op].clone();
+                let name = match &**l {
+                    R::Ref(n) => n.clone(),
+                    _ => return Err(err("assign-target")),
+                };
+                let cur = self.eval(l)?;
+                let rhs = self.eval(rr)?;
+                let v = self.logger(id, vec![cur, rhs], &ret)?;
+                self.ctx.insert(name, Binding::Var(v));
+                Ok(V::None)
             }
             R::Infix(op, l, rr) if is_assign(op) => {
                 let name = match &**l {
